@@ -11,6 +11,7 @@ import (
 	"strings"
 	"syscall"
 	"time"
+	"unsafe"
 
 	"github.com/metal-toolbox/audito-maldito/internal/verif/auditgen"
 	"github.com/metal-toolbox/audito-maldito/internal/verif/mc"
@@ -228,6 +229,19 @@ func runtimeCell(cause, load string) cellResult {
 			res.Verdict, res.Detail = "inconclusive", "could not keep the audit pipe full (the daemon consumes faster than the driver writes)"
 			return res
 		}
+	}
+	if load == "idle-after-saturation" {
+		// the flood ends, the daemon catches up, the audit writer stays connected and silent: whatever the
+		// workers did while the line buffer was full, they are idle on their open pipes again when the cause comes
+		close(fl.stop)
+		<-fl.done
+		fl = nil
+		for until := time.Now().Add(20 * time.Second); time.Now().Before(until); time.Sleep(10 * time.Millisecond) {
+			if pipeBytes(aw) == 0 {
+				break
+			}
+		}
+		time.Sleep(1500 * time.Millisecond) // the 10 000 buffered lines are worked off
 	}
 	// fire the cause
 	t0 := time.Now()
@@ -622,6 +636,13 @@ func runC08(run *mc.Run) int {
 		}
 		judge(runtimeCell(c, "stalled-output"))
 	}
+	// the line buffer was full for a while, then the stream went quiet (writers still connected)
+	for _, c := range []string{"sigterm", "sshd-pipe-eof", "sigint", "output-dev-full"} {
+		if !run.Thorough() && (c == "sigint" || c == "output-dev-full") {
+			continue
+		}
+		judge(runtimeCell(c, "idle-after-saturation"))
+	}
 	judge(signalInheritedIgnored(syscall.SIGINT, "sigint", "INT"))
 	judge(signalInheritedIgnored(syscall.SIGTERM, "sigterm", "TERM"))
 	judge(signalBeforeWriters(syscall.SIGTERM, "sigterm"))
@@ -653,7 +674,7 @@ func runC08(run *mc.Run) int {
 		}
 	}
 	cov := mc.Coverage{Level: "fault_enumeration", Evaluations: len(results), Distinct: len(results) - inconclusive, Exhaustive: inconclusive == 0, Samples: samples,
-		Rule:  "fault enumeration on the built binary over real FIFOs: 10 run-time causes (sshd pipe EOF, sshd writer dying mid-line with a replacement writer connecting 300 ms later (idle and stalled-output only), audit pipe EOF, unparsable audit line, a LOGIN record whose pid is not a number, a login the correlator rejects while the next login is already buffered, output /dev/full (the failing write being the event of a failed password and of each of the 16 sshd message forms in turn), output FIFO whose reader left, SIGTERM, SIGINT) x load {idle, stalled-output: the events FIFO is never drained so the line buffer and the audit pipe stay full (write end accepts no byte for >=300 ms), saturated: a writer keeps the audit FIFO full - single-record events written at full speed, >=8 MB written and the pipe found full >=50 times - flow equilibrium with the 10000-slot line buffer full}, 2 cells with -metrics -healthz -audit-metrics -log-level debug (every optional worker running) and an HTTP client stalled mid-response (pipelined /metrics requests, never read) x {audit pipe EOF, SIGTERM}, SIGTERM before any writer has opened the pipes (also with the audit pipe's path removed / re-created meanwhile) and while the daemon still waits for its events output to appear, SIGINT / SIGTERM to a daemon that was started with that signal ignored (inherited disposition), 6 start-up causes (sshd/audit path is a regular file, a directory, missing); oracle: the process exits within 10 s of the cause, non-zero for failures. A cell whose set-up could not be reached is inconclusive (exit 0, exhaustive=false). distinct_nontrivial = conclusive cells",
+		Rule:  "fault enumeration on the built binary over real FIFOs: 10 run-time causes (sshd pipe EOF, sshd writer dying mid-line with a replacement writer connecting 300 ms later (idle and stalled-output only), audit pipe EOF, unparsable audit line, a LOGIN record whose pid is not a number, a login the correlator rejects while the next login is already buffered, output /dev/full (the failing write being the event of a failed password and of each of the 16 sshd message forms in turn), output FIFO whose reader left, SIGTERM, SIGINT) x load {idle, idle-after-saturation (SIGTERM, sshd pipe EOF; thorough also SIGINT, /dev/full): the audit pipe was kept full, then the flood ended and the daemon caught up with its writers still connected, stalled-output: the events FIFO is never drained so the line buffer and the audit pipe stay full (write end accepts no byte for >=300 ms), saturated: a writer keeps the audit FIFO full - single-record events written at full speed, >=8 MB written and the pipe found full >=50 times - flow equilibrium with the 10000-slot line buffer full}, 2 cells with -metrics -healthz -audit-metrics -log-level debug (every optional worker running) and an HTTP client stalled mid-response (pipelined /metrics requests, never read) x {audit pipe EOF, SIGTERM}, SIGTERM before any writer has opened the pipes (also with the audit pipe's path removed / re-created meanwhile) and while the daemon still waits for its events output to appear, SIGINT / SIGTERM to a daemon that was started with that signal ignored (inherited disposition), 6 start-up causes (sshd/audit path is a regular file, a directory, missing); oracle: the process exits within 10 s of the cause, non-zero for failures. A cell whose set-up could not be reached is inconclusive (exit 0, exhaustive=false). distinct_nontrivial = conclusive cells",
 		Extra: map[string]any{"cells": results, "saturated_cells_reached": sat, "inconclusive": inconclusive, "bound_s": exitBound.Seconds()}}
 	cov.Assumptions = []string{"the OS scheduler is not controlled; 10 s is the property's bounded time against observed millisecond latencies",
 		"the decisive blocking state (line buffer full, consumer gone) is also decided deterministically by C13's bubble cells"}
@@ -665,4 +686,14 @@ func short(s string, n int) string {
 		return s[:n] + "..."
 	}
 	return s
+}
+
+// pipeBytes: bytes waiting in the FIFO behind f (FIONREAD works on either end).
+func pipeBytes(f *os.File) int {
+	var n int32
+	_, _, e := syscall.Syscall(syscall.SYS_IOCTL, f.Fd(), 0x541B, uintptr(unsafe.Pointer(&n)))
+	if e != 0 {
+		return 0
+	}
+	return int(n)
 }
